@@ -31,11 +31,17 @@ def inlineBlockWidthCore (cbWidth minC maxC : Rat) (box : ABox) : Except BErr AB
     | some _ => .ok box
   | _, _ => .error (.typeError "inline_block_width:auto-margin")
 
-/-- `float.py` `float_width.without_min_max`: `shrink_to_fit(context, box, containing_block.width)` — the
-containing block width itself is passed as the available *content* width. -/
+/-- `float.py` `float_width.without_min_max`: only when the width is `auto`, the available width is the
+containing block width minus the box's own margins, paddings and borders (read inside the `if`: a float
+with a specified width never reads its margins here), then `shrink_to_fit`. -/
 def floatWidthCore (cbWidth minC maxC : Rat) (box : ABox) : Except BErr ABox :=
   match box.w with
-  | none => .ok { box with w := some (shrinkToFit minC maxC cbWidth) }
+  | none =>
+    match box.ml, box.mr with
+    | some ml, some mr =>
+      let available := cbWidth - (ml + mr + box.pl + box.pr + box.bl + box.br)
+      .ok { box with w := some (shrinkToFit minC maxC available) }
+    | _, _ => .error (.typeError "float_width:auto-margin")
   | some _ => .ok box
 
 /-- Width part of `inline_block_box_layout`: auto margins are 0, then the decorated `inline_block_width`. -/
@@ -43,12 +49,9 @@ def inlineBlockLayoutWidth (cbWidth minC maxC : Rat) (box : ABox) : Except BErr 
   handleMinMaxWidth (inlineBlockWidthCore cbWidth minC maxC) (zeroAutoMargins box)
 
 /-- Width part of `float_layout` for a non-replaced float: auto margins are 0, then
-`elif box.width == 'auto': float_width(box, context, containing_block)` — the decorated function (and with
-it `min-width` and `max-width`) is only reached when the width is `auto`. -/
+`else: float_width(box, context, containing_block)` — the decorated function, whatever the width is, so
+`min-width` and `max-width` apply to a float with a specified width too. -/
 def floatLayoutWidth (cbWidth minC maxC : Rat) (box : ABox) : Except BErr ABox :=
-  let box := zeroAutoMargins box
-  match box.w with
-  | none => handleMinMaxWidth (floatWidthCore cbWidth minC maxC) box
-  | some _ => .ok box
+  handleMinMaxWidth (floatWidthCore cbWidth minC maxC) (zeroAutoMargins box)
 
 end Wp.ShrinkFit
